@@ -176,7 +176,20 @@ def deco(unit: Unit, lang, u, n) -> Unit:
         if lang != "ts" or "class" not in unit.lines[0]:
             return unit
         pool = [f"@sealed_{u}", f"@component_{u}({{ tag: 'x{u}' }})"]
+        if (u + n) % 4 == 3:  # decorator on the header line itself
+            ind = unit.lines[0][: len(unit.lines[0]) - len(unit.lines[0].lstrip())]
+            unit.lines[0] = ind + f"@sealed_{u} " + unit.lines[0].lstrip()
+            _mark(unit, "deco-sameline")
+            return unit
     new = [pool[i % len(pool)] for i in range(n)]
+    if (u + n) % 4 == 1 and lang in ("py", "ts"):  # a decorator call spread over several lines
+        if lang == "py":
+            new = new[:-1] + [f"@configure_{u}(", f"    flag_{u},", f"    mode_{u}=None,", ")"]
+        else:
+            new = new[:-1] + [f"@component_{u}({{", f"    tag: 'x{u}',", f"    kind: 'k{u}',", "})"]
+        _mark(unit, "deco-multiline")
+    ind = unit.lines[0][: len(unit.lines[0]) - len(unit.lines[0].lstrip())]
+    new = [ind + ln if not ln.startswith(ind) or not ind else ln for ln in new]
     unit.lines[0:0] = new
     unit.shift(0, len(new))
     _mark(unit, "deco")
